@@ -17,6 +17,8 @@
 (*                sorted, each equal to start + k dt                         *)
 (*   FixedEnd     PT-TEMPO / Gibbs objects end at their fixed length and     *)
 (*                repeated calls change nothing                              *)
+(*   Call*        the stateless front ends compute_dynamics(_with_field):    *)
+(*                number of recorded points, grid, label of the last point   *)
 (* Times are integers in ticks (1e-4); events whose times are not on the     *)
 (* tick grid only get the rules that do not need the target.                 *)
 (***************************************************************************)
@@ -61,6 +63,17 @@ Rules(o) ==
 
 Failed(o) == LET R == Rules(o) IN { R[i][1] : i \in { j \in DOMAIN R : ~R[j][2] } }
 
+\* stateless front ends (compute_dynamics, compute_dynamics_with_field): the number of steps is the one asked for, or
+\* else the length of the shortest process tensor; one recorded time point per step 0..n (or only the last one), each
+\* equal to start + k dt; the last label is start + n dt
+CallRules ==
+    LET n == IF E.nsteps >= 0 THEN E.nsteps ELSE E.ptmin
+        done == ~E.raised /\ n >= 0 /\ E.dt > 0
+    IN << <<"CallCount", done => E.nrec = (IF E.record_all THEN n + 1 ELSE 1)>>,
+          <<"CallGrid", done => (E.sorted /\ E.grid)>>,
+          <<"CallLastLabel", (done /\ E.ongrid /\ E.lastgrid) => E.last = E.start + n * E.dt>> >>
+CallFailed == { CallRules[i][1] : i \in { j \in DOMAIN CallRules : ~CallRules[j][2] } }
+
 Consume ==
     /\ l <= Len(Events)
     /\ l' = l + 1
@@ -68,6 +81,9 @@ Consume ==
          [] E.ev = "compute" /\ Known ->
                /\ objs' = [objs EXCEPT ![E.oid].step = E.step_after, ![E.oid].nrec = E.nrec_after]
                /\ bad' = IF Failed(objs[E.oid]) = {} THEN bad ELSE Append(bad, [line |-> l, oid |-> E.oid, kind |-> objs[E.oid].kind, rules |-> Failed(objs[E.oid])])
+         [] E.ev = "call" ->
+               /\ UNCHANGED objs
+               /\ bad' = IF CallFailed = {} THEN bad ELSE Append(bad, [line |-> l, oid |-> "-", kind |-> E.fn, rules |-> CallFailed])
          [] E.ev = "hook-error" -> bad' = Append(bad, [line |-> l, oid |-> "-", kind |-> "hook-error", rules |-> {"hook-error"}]) /\ UNCHANGED objs
          [] OTHER -> UNCHANGED <<objs, bad>>
 
